@@ -387,7 +387,15 @@ pub fn iota_did(cex: &Value) -> Result<String, String> {
     }
     // equality <=> network and tag bytes
     let a = IotaDID::parse(format!("did:iota:{tag_l}")).unwrap();
-    for (s, same) in [(format!("did:iota:iota:{tag_l}"), true), (format!("did:iota:{tag_u}"), true), (format!("did:iota:rms:{tag_l}"), false)] {
+    for (s, same) in [
+      (format!("did:iota:iota:{tag_l}"), true),
+      (format!("did:iota:{tag_u}"), true),
+      (format!("did:iota:rms:{tag_l}"), false),
+      (format!("did:iota:IOTA:{tag_l}"), true),
+      (format!("did:iota:Iota:{tag_u}"), true),
+      (format!("did:iota:iotA:{tag_l}"), true),
+      (format!("did:iota:RMS:{tag_l}"), false),
+    ] {
       if let Ok(b) = IotaDID::parse(&s) {
         if (a == b) != same {
           log.push(format!("[case] parse({s:?}) == canonical is {}", a == b));
@@ -401,6 +409,12 @@ pub fn iota_did(cex: &Value) -> Result<String, String> {
           }
           if b.to_string() != b.to_string().to_lowercase() {
             log.push(format!("[case] TryFrom<CoreDID>({s:?}) held as {b}: not lower-case"));
+          }
+          if b.to_string().starts_with("did:iota:iota:") || IotaDID::parse(b.to_string()).ok().as_ref() != Some(&b) {
+            log.push(format!("[case] TryFrom<CoreDID>({s:?}) held as {b}: default network not omitted / does not re-parse to an equal value"));
+          }
+          if serde_json::from_str::<IotaDID>(&format!("\"{s}\"")).ok().as_ref() != Some(&b) {
+            log.push(format!("[case] deserialising {s:?} gives another value than TryFrom<CoreDID>"));
           }
         }
       }
